@@ -131,12 +131,13 @@ var solverCmd = map[string][]string{
 	"z3new": {"z3-new", "-smt2"},
 	"z3":    {"z3", "-smt2"},
 	"cvc5":  {"cvc5", "--lang=smt2"},
+	"z3cs":  {"z3-new", "-smt2", "smt.case_split=3"},
 }
 
 func runSolver(solver, file string, timeout time.Duration) (status, out string, ms int64) {
 	args := append([]string{}, solverCmd[solver][1:]...)
 	switch solver {
-	case "z3new", "z3":
+	case "z3new", "z3", "z3cs":
 		args = append(args, fmt.Sprintf("-T:%d", int(timeout.Seconds())+1))
 	case "cvc5":
 		args = append(args, fmt.Sprintf("--tlimit=%d", timeout.Milliseconds()))
@@ -176,6 +177,104 @@ type solveOpts struct {
 	allAgree bool // thorough: every solver must answer unsat (or at least not sat)
 	keep     bool
 	only     string
+	noInc    bool
+}
+
+// incremental pre-pass: one z3 process per chunk of obligations of a function, push/pop per
+// obligation, short per-query limit. Whatever is not proved here goes to the per-obligation portfolio.
+const incChunk = 40
+
+func buildIncremental(eng *Engine, fv *funcVC, lo, hi int, ms int) (string, []int) {
+	var sb strings.Builder
+	sb.WriteString(eng.prelude("z3"))
+	fmt.Fprintf(&sb, "(set-option :timeout %d)\n", ms)
+	var idx []int
+	nob := 0
+	for k, it := range fv.Items {
+		switch it.Kind {
+		case itDecl:
+			sb.WriteString(it.Text + "\n")
+		case itAssume:
+			sb.WriteString("(assert " + it.Text + ")\n")
+		case itOblig:
+			if nob >= lo && nob < hi {
+				sb.WriteString("(push 1)\n(assert (not " + imp(it.Ob.Guard, it.Ob.Formula) + "))\n(check-sat)\n(pop 1)\n")
+				idx = append(idx, k)
+			}
+			nob++
+			if nob >= hi {
+				return eng.finishQuery(sb.String()), idx
+			}
+			if it.Ob.Known == "" {
+				sb.WriteString("(assert " + imp(it.Ob.Guard, it.Ob.Formula) + ")\n")
+			}
+		}
+	}
+	return eng.finishQuery(sb.String()), idx
+}
+
+func solveIncremental(eng *Engine, fvs []*funcVC, opt solveOpts) map[*Oblig]int64 {
+	type chunk struct {
+		fv     *funcVC
+		lo, hi int
+	}
+	var chunks []chunk
+	for _, fv := range fvs {
+		n := 0
+		for _, it := range fv.Items {
+			if it.Kind == itOblig {
+				n++
+			}
+		}
+		for lo := 0; lo < n; lo += incChunk {
+			hi := lo + incChunk
+			if hi > n {
+				hi = n
+			}
+			chunks = append(chunks, chunk{fv, lo, hi})
+		}
+	}
+	proved := map[*Oblig]int64{}
+	var mu sync.Mutex
+	var wg sync.WaitGroup
+	ch := make(chan int)
+	for w := 0; w < opt.workers*2; w++ {
+		wg.Add(1)
+		go func() {
+			defer wg.Done()
+			for ci := range ch {
+				c := chunks[ci]
+				qs, idx := buildIncremental(eng, c.fv, c.lo, c.hi, 1500)
+				file := filepath.Join(opt.dir, fmt.Sprintf("inc%05d.smt2", ci))
+				os.WriteFile(file, []byte(qs), 0o644)
+				start := time.Now()
+				ctx, cancel := context.WithTimeout(context.Background(), time.Duration(len(idx))*2*time.Second+10*time.Second)
+				cmd := exec.CommandContext(ctx, "z3-new", "-smt2", file)
+				var buf bytes.Buffer
+				cmd.Stdout = &buf
+				cmd.Run()
+				cancel()
+				per := time.Since(start).Milliseconds() / int64(len(idx)+1)
+				lines := strings.Fields(buf.String())
+				mu.Lock()
+				for i, k := range idx {
+					if i < len(lines) && lines[i] == "unsat" {
+						proved[c.fv.Items[k].Ob] = per
+					}
+				}
+				mu.Unlock()
+				if !opt.keep {
+					os.Remove(file)
+				}
+			}
+		}()
+	}
+	for i := range chunks {
+		ch <- i
+	}
+	close(ch)
+	wg.Wait()
+	return proved
 }
 
 func solveAll(eng *Engine, fvs []*funcVC, opt solveOpts) []*Result {
@@ -195,6 +294,10 @@ func solveAll(eng *Engine, fvs []*funcVC, opt solveOpts) []*Result {
 		}
 	}
 	results := make([]*Result, len(jobs))
+	var pre map[*Oblig]int64
+	if opt.only == "" && !opt.allAgree && !opt.noInc {
+		pre = solveIncremental(eng, fvs, opt)
+	}
 	var wg sync.WaitGroup
 	ch := make(chan int)
 	for w := 0; w < opt.workers; w++ {
@@ -203,6 +306,10 @@ func solveAll(eng *Engine, fvs []*funcVC, opt solveOpts) []*Result {
 			defer wg.Done()
 			for i := range ch {
 				j := jobs[i]
+				if ms, ok := pre[j.fv.Items[j.k].Ob]; ok {
+					results[i] = &Result{Ob: j.fv.Items[j.k].Ob, fv: j.fv, k: j.k, Status: "unsat", Solver: "z3new-incremental", Ms: ms}
+					continue
+				}
 				results[i] = solveOne(eng, j.fv, j.k, i, opt)
 			}
 		}()
@@ -297,6 +404,24 @@ func solveOne(eng *Engine, fv *funcVC, k, id int, opt solveOpts) *Result {
 	res.Answers = answers
 	if proved != "" && !sawSat {
 		return done("unsat", proved, time.Since(start).Milliseconds())
+	}
+	if !sawSat && res.Status == "timeout" {
+		// last resort before giving up: a different case-split heuristic and a longer limit
+		files["z3cs"] = files["z3new"]
+		type a3 struct{ s, st string }
+		c3 := make(chan a3, 2)
+		for _, s := range []string{"z3cs", "cvc5"} {
+			go func(s string) {
+				st, _, _ := runSolver(s, files[s], 3*opt.timeout)
+				c3 <- a3{s, st}
+			}(s)
+		}
+		for i := 0; i < 2; i++ {
+			a := <-c3
+			if a.st == "unsat" {
+				return done("unsat", a.s+"(slow)", time.Since(start).Milliseconds())
+			}
+		}
 	}
 	res.Ms = time.Since(start).Milliseconds()
 	// model search (quantified hypotheses replaced by finite instance sets; validated by replay)
